@@ -31,6 +31,8 @@ def scenarios(tier):
         for nb in (1, 2):
             for n in (1, 2):
                 out.append({"versioned": False, "k": k, "op": ("replace_all", nb, n)})
+    out.append({"versioned": False, "k": 1, "op": ("replace_all", 1, 0)})     # an empty replacement can never verify
+    out.append({"versioned": False, "k": 2, "op": ("replace_all", 2, 0)})
     out.append({"versioned": False, "k": 0, "op": ("replace_all", 1, 1)})     # empty log: no snapshot is taken
     out.append({"versioned": False, "k": 0, "op": ("replace_all", 2, 1)})
     out.append({"versioned": False, "k": 0, "op": ("patch_checked", 1, 1)})   # a log without commits has no agreed base
